@@ -722,4 +722,20 @@ def run (I : ObjIface σ) : State σ → List Op → Option (State σ × List (R
       | none => none
       | some (s'', out) => some (s'', (r, ev) :: out)
 
+/-- receiver time of a call -/
+def Op.now : Op → Int
+  | .data _ now _ => now
+  | .cleanup now _ => now
+
+/-- like `run`, but keeps for every call the state after it: (call, state after, result, events) -/
+def runT (I : ObjIface σ) : State σ → List Op → Option (List (Op × State σ × Res × List Ev))
+  | _, [] => some []
+  | s, op :: ops =>
+    match step I s op with
+    | .error _ => none
+    | .ok (s', r, ev) =>
+      match runT I s' ops with
+      | none => none
+      | some t => some ((op, s', r, ev) :: t)
+
 end Flute.Recv
